@@ -500,6 +500,41 @@ fn c07_case(seed: u64, cx: &mut Ctx) -> (Vec<Failure>, bool, u64) {
     (fails, nontrivial, fnv(&format!("{trace:?}")))
 }
 
+/// C08 "no update is lost" for the single-writer database: a writer that has to wait for the
+/// single-writer lock must get a snapshot taken *after* the previous transaction committed.
+/// T1 holds a write transaction; T2 calls write_tx() on another thread (blocks); T1 increments and
+/// commits; T2 increments and commits; the counter must be 2.  (If T2 is slow to start it simply
+/// does not block; that cannot produce a false alarm.)
+fn single_writer_probe() -> Option<Failure> {
+    let scratch = Scratch::new("sw");
+    let db = SingleWriterTxDatabase::builder(scratch.join("db")).worker_threads_unchecked(0).open().ok()?;
+    let ks = db.keyspace("c", KeyspaceCreateOptions::default).ok()?;
+    ks.insert("n", "0").ok()?;
+    let rounds = 5;
+    for round in 0..rounds {
+        let before: u64 = String::from_utf8_lossy(&ks.get("n").ok()??).parse().ok()?;
+        let mut t1 = db.write_tx();
+        let (db2, ks2) = (db.clone(), ks.clone());
+        let h = std::thread::spawn(move || -> Option<()> {
+            let mut t2 = db2.write_tx();
+            let v: u64 = String::from_utf8_lossy(&t2.get(&ks2, "n").ok()??).parse().ok()?;
+            t2.insert(&ks2, "n", (v + 1).to_string());
+            t2.commit().ok()?;
+            Some(())
+        });
+        std::thread::sleep(std::time::Duration::from_millis(30));
+        let v: u64 = String::from_utf8_lossy(&t1.get(&ks, "n").ok()??).parse().ok()?;
+        t1.insert(&ks, "n", (v + 1).to_string());
+        t1.commit().ok()?;
+        h.join().ok()??;
+        let after: u64 = String::from_utf8_lossy(&ks.get("n").ok()??).parse().ok()?;
+        if after != before + 2 {
+            return Some(Failure { kind: "impl-vs-oracle", detail: format!("single-writer database, round {round}: two serialized read-modify-write transactions (the second one waited for the single-writer lock while the first was open) moved the counter from {before} to {after}: an update was lost") });
+        }
+    }
+    None
+}
+
 fn main() {
     let args: Vec<String> = std::env::args().collect();
     let mut replay = None;
@@ -523,6 +558,7 @@ fn main() {
     let mut samples = vec![];
     let mut hist = BTreeMap::new();
     let mut cases = 0;
+    if mode == "c08" && replay.is_none() { if let Some(f) = single_writer_probe() { all.push((0, f)); } *hist.entry("single-writer-probe".to_string()).or_insert(0) += 1; }
     for cs in seeds {
         let res = std::panic::catch_unwind(std::panic::AssertUnwindSafe(|| {
             let mut cx = Ctx { lean: &mut lean, hist: &mut hist, samples: &mut samples };
